@@ -98,11 +98,10 @@ func ruleStoreSiblings(c *Ctx) {
 				}
 				if wt == nil || !used {
 					bad = append(bad, "the back-end call is not bounded by a context with the store's timeout (a hung store stalls the fetcher while it holds the entry lock)")
-				} else if !cancelled {
-					bad = append(bad, "the timeout context is not cancelled")
 				}
+				_ = cancelled // releasing the context early is hygiene, not part of any property
 			})
-			c.check(len(bad) == 0 && np > 0, "remote-store-deadline", name, pos, "context.WithTimeout(…, s.timeout) is passed to the back end and cancelled", strings.Join(uniq(bad), " || "), np)
+			c.check(len(bad) == 0 && np > 0, "remote-store-deadline", name, pos, "context.WithTimeout(…, s.timeout) is passed to the back end", strings.Join(uniq(bad), " || "), np)
 		}
 	}
 	// defaults of the timeout
@@ -218,7 +217,7 @@ func ruleConverters(c *Ctx) {
 				// value: a field of a configuration item (possibly HealthCheck->Ping style renames are not in refFields)
 				src := ""
 				e.Val.walk(func(x *Term) bool {
-					if src == "" && x.Op == "fld" && x.Obj != nil && x.Obj.Pkg() != nil && x.Obj.Pkg().Path() == pkgPath("config") {
+					if src == "" && (x.Op == "fld" || x.Op == "fa") && x.Obj != nil && x.Obj.Pkg() != nil && x.Obj.Pkg().Path() == pkgPath("config") {
 						src = x.Name
 					}
 					return true
